@@ -57,10 +57,10 @@ field_type('BIOGEME', 'id_manager', 'IdManager')
 field_type('BIOGEME', 'theC', 'CythonEngine')
 field_type('IdManager', 'free_betas_values', 'list[float]')
 field_type('IdManager', 'fixed_betas_values', 'list[float]')
-contract('biogeme.database.Database.get_sample_size', ['C04', 'C02', 'C09'], verify=False, pure=True, reads=['individualMap', 'data', '_is_panel'],
-         returns='int', ensures={'t': 'True'}, note='assumed here (proved/bounded under C09): number of individuals for panel data, rows otherwise')
-contract('biogeme.database.Database.is_panel', ['C04', 'C02', 'C09'], verify=False, pure=True, reads=['panelColumn'], returns='bool', ensures={'t': 'True'})
-contract('biogeme.database.Database.build_panel_map', ['C04', 'C02', 'C09'], verify=False, modifies=['*.individualMap', '*.data', '*.fullIndividualMap'],
+contract('biogeme.database.Database.get_sample_size', ['C04', 'C02', 'C15'], verify=False, pure=True,
+         returns='int', ensures={'t': 'True'}, note='assumed here (contract under C09): a function of the database object (individuals for panel data, rows otherwise)')
+contract('biogeme.database.Database.is_panel', ['C04', 'C02', 'C15'], verify=False, pure=True, reads=['panelColumn'], returns='bool', ensures={'t': 'True'})
+contract('biogeme.database.Database.build_panel_map', ['C04', 'C02', 'C15'], verify=False, modifies=['*.individualMap', '*.data', '*.fullIndividualMap'],
          ensures={'t': 'True'}, note='assumed here: rebuilds the individual -> rows map (C09)')
 
 contract(B + 'calculate_likelihood', ['C04', 'C02'],
